@@ -11,7 +11,7 @@ CONSTANTS LATS,          \* lattices (names) that get generator lists of up to M
           MAXGEN,        \* 1..3
           ORDERED,       \* TRUE: both orders of every pair
           TRIPLES,       \* catalogue indices used for 3-generator lists
-          DUPS,          \* TRUE: only generator lists that repeat an element (the code keeps both copies)
+          DUPS,          \* TRUE: also generator lists that repeat an element (the code keeps the first copy only)
           TENSOR_LATS,   \* lattices whose groups act on tensors (the action depends on the frame only)
           RANKS, COMBOS, \* COMBOS: "few" | "all" | "invalid"
           NGENERIC, BASIS, MAXPAIRS, \* tensors: NGENERIC generic ones per rank (+ all basis tensors); action law on groups up to MAXPAIRS
@@ -46,8 +46,8 @@ GenIdx(l) ==
    LET only == Only(Lat(l).fam)
        all == IF only = {} THEN 1..Len(Catalogue(Lat(l).fam)) ELSE only
        c == Compatible(l) \cap all  full == l \in LATS IN
-   IF DUPS THEN {<<a, a>> : a \in {2, 7, 12} \cap c} \cup {<<7, 2, 7>>}
-   ELSE {<<>>} \cup {<<a>> : a \in all}
+   (IF DUPS THEN {<<a, a>> : a \in {2, 7, 12} \cap c} \cup (IF {2, 7} \subseteq c THEN {<<7, 2, 7>>} ELSE {}) ELSE {})
+   \cup {<<>>} \cup {<<a>> : a \in all}
         \cup (IF full /\ MAXGEN >= 2 THEN {<<a, b>> : a, b \in c} \ {p \in {<<a, b>> : a, b \in c} : p[1] = p[2] \/ (~ORDERED /\ p[1] > p[2])} ELSE {})
         \cup (IF full /\ MAXGEN >= 3 THEN {t \in {<<a, b, d>> : a, b, d \in (c \cap TRIPLES)} : t[1] < t[2] /\ t[2] < t[3]} ELSE {})
 GenNames(l, idx) == [k \in 1..Len(idx) |-> Catalogue(Lat(l).fam)[idx[k]]]
@@ -106,21 +106,13 @@ Pass == /\ pc = "gen"
         /\ UNCHANGED <<lat, gens, inp>>
 
 PickTensor ==
-   /\ pc = "group" /\ lat \in TENSOR_LATS /\ ~DUPS
+   /\ pc = "group" /\ lat \in TENSOR_LATS
    /\ \E r \in RANKS : \E c \in Combos(r) : \E T \in Tensors(r) :
         /\ inp' = [rank |-> r, tTR |-> c[1], tInv |-> c[2], T |-> T]
         /\ out' = [acted |-> [n \in 1..Len(G) |-> Act(G[n], T, Predefined[c[1]], Predefined[c[2]])],
                    sym |-> Symmetrize(G, T, Predefined[c[1]], Predefined[c[2]])]
    /\ pc' = "tensor" /\ UNCHANGED <<lat, gens, G, npass>>
-(* duplicated generators: the projection property is evaluated on the list the code builds *)
-PickTensorDup ==
-   /\ pc = "group" /\ DUPS
-   /\ \E T \in {Generic(1, 1)} :
-        /\ inp' = [rank |-> 1, tTR |-> "ident", tInv |-> "ident", T |-> T]
-        /\ out' = [acted |-> [n \in 1..Len(G) |-> Act(G[n], T, transform_ident, transform_ident)],
-                   sym |-> Symmetrize(G, T, transform_ident, transform_ident)]
-   /\ pc' = "tensor" /\ UNCHANGED <<lat, gens, G, npass>>
-Next == Pass \/ PickTensor \/ PickTensorDup
+Next == Pass \/ PickTensor
 Spec == Init /\ [][Next]_vars
 
 -----------------------------------------------------------------------------
